@@ -22,7 +22,7 @@ def decode_datetime(obj):
     return reference + offsets
 
 
-def decode_array(encoded, records_per_chunk):
+def decode_array(encoded, records_per_chunk, fs=None):
     def default_decode(obj):
         return np.array(obj["data"], dtype=obj["dtype"])
 
@@ -33,10 +33,15 @@ def decode_array(encoded, records_per_chunk):
 
         return decoder(encoded)
 
-    mapper = fsspec.get_mapper(encoded["root"])
-    from fsspec.implementations.dirfs import DirFileSystem
+    root = encoded["root"]
+    if fs is None or "://" in root:
+        # a fully qualified root is an absolute reference
+        from fsspec.implementations.dirfs import DirFileSystem
 
-    fs = DirFileSystem(path=mapper.root, fs=mapper.fs)
+        mapper = fsspec.get_mapper(root)
+        fs = DirFileSystem(path=mapper.root, fs=mapper.fs)
+    # otherwise the root is a bare path without protocol or storage options:
+    # the image is the one next to which (or for which) the cache was found
 
     type_code = encoded["type_code"]
     url = encoded["url"]
@@ -54,19 +59,21 @@ def decode_array(encoded, records_per_chunk):
     )
 
 
-def decode_variable(encoded, records_per_chunk):
-    data = decode_array(encoded["data"], records_per_chunk=records_per_chunk)
+def decode_variable(encoded, records_per_chunk, fs=None):
+    data = decode_array(encoded["data"], records_per_chunk=records_per_chunk, fs=fs)
 
     return Variable(dims=encoded["dims"], data=data, attrs=encoded["attrs"])
 
 
-def decode_group(encoded, records_per_chunk):
-    data = valmap(curry(decode_hierarchy, records_per_chunk=records_per_chunk), encoded["data"])
+def decode_group(encoded, records_per_chunk, fs=None):
+    data = valmap(
+        curry(decode_hierarchy, records_per_chunk=records_per_chunk, fs=fs), encoded["data"]
+    )
 
     return Group(path=encoded["path"], url=encoded["url"], data=data, attrs=encoded["attrs"])
 
 
-def decode_hierarchy(encoded, records_per_chunk):
+def decode_hierarchy(encoded, records_per_chunk, fs=None):
     type_ = encoded.get("__type__")
 
     decoders = {
@@ -77,4 +84,4 @@ def decode_hierarchy(encoded, records_per_chunk):
     if decoder is None:
         return encoded
 
-    return decoder(encoded, records_per_chunk=records_per_chunk)
+    return decoder(encoded, records_per_chunk=records_per_chunk, fs=fs)
